@@ -315,6 +315,30 @@ def r_numbering(repo, rep, R='R7.3'):
                     rep.check(False, R, '%s:%s %s' % (rel, l.lineno, fn.name), '%s:%s:numbering:outer-index' % (rel, fn.name), '',
                               'the batch is walked without a sentence index and the records are numbered by %s, which advances with every tree: the second tree of a sentence '
                               'gets the number of the next sentence' % sorted(counters))
+            # the batch flattened into one run of records (chain.from_iterable(batch), a comprehension over both levels, sum(batch, []))
+            # and numbered by enumerate: the number advances with every tree, not with every sentence
+            flat = set()
+            for a_ in ast.walk(fn):
+                if isinstance(a_, ast.Assign) and len(a_.targets) == 1 and isinstance(a_.targets[0], ast.Name):
+                    v_ = a_.value
+                    is_flat = (isinstance(v_, ast.Call) and src(v_.func) in ('chain.from_iterable', 'itertools.chain.from_iterable') and v_.args and src(v_.args[0]) in params) or \
+                        (isinstance(v_, ast.Call) and src(v_.func) == 'sum' and len(v_.args) == 2 and src(v_.args[0]) in params) or \
+                        (isinstance(v_, ast.Call) and src(v_.func) in ('chain', 'itertools.chain') and len(v_.args) == 1 and isinstance(v_.args[0], ast.Starred) and src(v_.args[0].value) in params) or \
+                        (isinstance(v_, (ast.ListComp, ast.GeneratorExp)) and len(v_.generators) == 2 and src(v_.generators[0].iter) in params
+                         and isinstance(v_.generators[0].target, ast.Name) and src(v_.generators[1].iter) == v_.generators[0].target.id)
+                    if is_flat:
+                        flat.add(a_.targets[0].id)
+            for l in [l for l in ast.walk(fn) if isinstance(l, ast.For) and isinstance(l.iter, ast.Call) and src(l.iter.func) == 'enumerate' and l.iter.args and enclosing_function(l) is fn]:
+                a0 = l.iter.args[0]
+                direct_flat = (isinstance(a0, ast.Call) and src(a0.func) in ('chain.from_iterable', 'itertools.chain.from_iterable') and a0.args and src(a0.args[0]) in params)
+                if (isinstance(a0, ast.Name) and a0.id in flat) or direct_flat:
+                    idx_ = l.target.elts[0].id if isinstance(l.target, ast.Tuple) and isinstance(l.target.elts[0], ast.Name) else None
+                    sinks = [n for n in ast.walk(l) if isinstance(n, ast.Call) and isinstance(n.func, ast.Attribute) and n.func.attr == 'format' and idx_ is not None
+                             and any(isinstance(x, ast.Name) and x.id == idx_ for x in ast.walk(n))]
+                    if sinks:
+                        sites += 1
+                        rep.check(False, R, '%s:%s %s' % (rel, l.lineno, fn.name), '%s:%s:numbering:outer-index' % (rel, fn.name), '',
+                                  'the batch is flattened (%s) and the records are numbered by enumerate over the flat run: the second tree of a sentence gets the number of the next sentence' % src(a0)[:50])
             for l in loops:
                 sites += 1
                 w = '%s:%s %s' % (rel, l.lineno, fn.name)
@@ -789,6 +813,55 @@ def r_leaf_positions(repo, rep, R='R7.11'):
     rep.ok(R, 'depccg/printer/*', 'no encoder finds the position of a leaf or token by searching for an equal element (%d definitions scanned; embedded example fires)' % n)
 
 
+def r_attribute_runs(repo, rep, R='R7.4'):
+    """the levels of a token attribute written by the Japanese format (pos, pos1.., inflectionForm, inflectionType) are all
+    looked at: an unspecified level ('*') is left out, the levels after it are still written.  Cutting the run at the
+    first '*' (takewhile, a `break` in the loop over the levels) drops values that json / xml / prolog carry."""
+    bad = []
+    n = 0
+    for rel in ('depccg/printer/ja.py', 'depccg/printer/prolog.py'):
+        mod = repo.module(rel)
+        for c in ast.walk(mod.tree):
+            if isinstance(c, ast.Call) and src(c.func).split('.')[-1] in ('takewhile', 'dropwhile'):
+                bad.append('%s:%s %s' % (rel, c.lineno, src(c)[:60]))
+            if isinstance(c, ast.For) and isinstance(c.iter, (ast.Tuple, ast.List)) and all(isinstance(e, ast.Constant) and isinstance(e.value, str) for e in c.iter.elts) \
+                    and any(str(e.value).startswith(('pos', 'inflection')) for e in c.iter.elts):
+                n += 1
+                if any(isinstance(b, ast.Break) for b in ast.walk(c)):
+                    bad.append('%s:%s break in the loop over %s' % (rel, c.lineno, src(c.iter)[:40]))
+            if isinstance(c, (ast.ListComp, ast.GeneratorExp)) and any(isinstance(g.iter, (ast.Tuple, ast.List)) and any(isinstance(e, ast.Constant) and str(e.value).startswith(('pos', 'inflection')) for e in g.iter.elts) for g in c.generators):
+                n += 1
+    rep.check(not bad, R, 'depccg/printer/ja.py:1 ja_of', 'ja:attribute-levels', 'every level of the part-of-speech / inflection attributes is looked at (%d walks over the level names)' % n,
+              'the run of attribute levels is cut at the first unspecified one: %s' % bad[:2])
+
+
+def r_tree_word(repo, rep, R='R7.4'):
+    """Tree.word is what the tokens hold, joined by blanks: the formats that take the word from the tree (deriv, html, prolog,
+    ptb, auto ..) and those that take it from the token (xml, jigg_xml, json) then write the same word -- each applying its
+    own escaping on top.  A word rewritten inside the accessor reaches only half of the formats."""
+    tm = repo.module('depccg/tree.py')
+    fn = tm.get('Tree.word')
+    w = 'depccg/tree.py:%s Tree.word' % fn.lineno
+    rets = [r.value for r in ast.walk(fn) if isinstance(r, ast.Return) and r.value is not None]
+    ok = False
+    detail = [src(r)[:80] for r in rets]
+    if len(rets) == 1:
+        r = rets[0]
+        if isinstance(r, ast.Call) and isinstance(r.func, ast.Attribute) and r.func.attr == 'join' and isinstance(r.func.value, ast.Constant) and r.func.value.value == ' ' and len(r.args) == 1 \
+                and isinstance(r.args[0], (ast.GeneratorExp, ast.ListComp)) and len(r.args[0].generators) == 1 and not r.args[0].generators[0].ifs:
+            g = r.args[0]
+            tv = g.generators[0].target.id if isinstance(g.generators[0].target, ast.Name) else None
+            e = g.elt
+            plain = (isinstance(e, ast.Subscript) and isinstance(e.value, ast.Name) and e.value.id == tv) or \
+                (isinstance(e, ast.Attribute) and isinstance(e.value, ast.Name) and e.value.id == tv and e.attr == 'word')
+            ok = plain and src(g.generators[0].iter) in ('self.tokens', 'self.leaves')
+            if isinstance(e, ast.Attribute) and src(g.generators[0].iter) == 'self.leaves':
+                ok = plain
+        elif isinstance(r, (ast.Subscript, ast.Attribute)):
+            ok = True       # a leaf-only accessor handing the stored word back
+    rep.check(ok, R, w, 'Tree.word:verbatim', 'Tree.word joins the words the tokens hold, unchanged', 'Tree.word returns %s' % detail)
+
+
 def r_flat_list(repo, rep, R='R7.3'):
     """to_string accepts the n-best list of one sentence written flat ([t1, t2]): it is that one sentence (all trees under
     sentence number 1), not one sentence per tree"""
@@ -852,6 +925,8 @@ def check(repo, rep, tier):
     r_templates_constant(repo, rep, 'R7.3', repo.py_files('depccg/printer'),
                          'a word or category text that contains { } is then taken for a replacement field: the record that is written is not the one the encoder produced')
     r_flat_list(repo, rep)
+    r_tree_word(repo, rep)
+    r_attribute_runs(repo, rep)
     rep.rule('R7.13', 'what an encoder writes for a node is computed from that node: no table at module level that a rendering fills and a later rendering reads')
     from ..lints import r_module_state
     r_module_state(repo, rep, 'R7.13', repo.py_files('depccg/printer'),
